@@ -14,7 +14,7 @@ import shutil
 
 import pxvlib
 
-KNOWN = ["dev", "prod", "local_development"]
+KNOWN = ["dev", "prod", "local_development", "staging2", "prodEU"]
 SCHEMAS = {
     "S1": [("server.host", "string", True), ("server.port", "u16", True), ("server.tls", "bool", False),
            ("db.url", "string", True), ("db.pool.max_size", "u32", True), ("db.pool.timeout", "i64", False),
@@ -256,7 +256,7 @@ def gen(rng):
     elif m < 0.76:
         selected = explicit = rng.choice(KNOWN)
         if rng.random() < 0.5:
-            env.append(["PX_PROFILE", rng.choice(KNOWN + ["staging", "", "DEV"])])
+            env.append(["PX_PROFILE", rng.choice(KNOWN + ["staging", "", "DEV", "staging_2", "prod_eu", "prodeu"])])
     elif m < 0.79:
         selected = None
     elif m < 0.86:
